@@ -7,6 +7,7 @@ import Driver.Paginate
 import Driver.Log
 import Driver.SqlText
 import Driver.Engine
+import Driver.Syntax
 /-! registry of the areas the driver serves -/
 namespace Driver
 def areas : List (String × Handler) := [
@@ -18,6 +19,7 @@ def areas : List (String × Handler) := [
   ("logrt", LogD.handle),
   ("sqltext", SqlTextD.handle),
   ("sqllex", SqlTextD.handleLex),
-  ("enginetrace", EngineD.handle)
+  ("enginetrace", EngineD.handle),
+  ("nstext", SyntaxD.handle)
 ]
 end Driver
